@@ -102,11 +102,11 @@ def rand_spec(profile, seed):
             ep = sname()
             M["regions"][0].append(ep)
             M["kinds"][ep] = "entry_pt"
-            entry_pts[0] = ep
+            entry_pts[0] = (ep, rnd.choice(events[:nev]))     # the event that enters through it is the one its row reacts to
             xp = sname()
             M["regions"][-1].append(xp)
             xev = "X%d" % mi
-            events.append({"name": xev, "exit": True, "postable": False, "external": True})
+            events.append({"name": xev, "exit": True})
             M["kinds"][xp] = "exit_pt:" + xev
             exit_pts[len(M["regions"]) - 1] = (xp, xev)
         M["_explicit"], M["_entry_pts"], M["_exit_pts"] = explicit, entry_pts, exit_pts
@@ -124,9 +124,14 @@ def rand_spec(profile, seed):
                 else:
                     tgt = rnd.choice(normal + ([M["_exit_pts"][ri][0]] if ri in M["_exit_pts"] and rnd.random() < 0.4 else []))
                     M["rows"].append("%s + %s%s%s -> %s" % (src, ev, guard(pool), actions(), tgt))
+            # every pseudo state takes part in the table of its machine (documented usage)
+            if ri in M["_exit_pts"] and not any(r.endswith("-> " + M["_exit_pts"][ri][0]) for r in M["rows"]):
+                M["rows"].append("%s + %s%s%s -> %s" % (rnd.choice(normal), rnd.choice(events[:nev]), guard(pool), actions(), M["_exit_pts"][ri][0]))
+            if ri in M["_explicit"] and not any(r.startswith(M["_explicit"][ri] + " ") for r in M["rows"]):
+                M["rows"].append("%s + %s%s -> %s" % (M["_explicit"][ri], rnd.choice(events[:nev]), actions(), rnd.choice(normal)))
             if ri in M["_entry_pts"]:
-                ep = M["_entry_pts"][ri]
-                M["rows"].append("%s + %s%s -> %s" % (ep, rnd.choice(events[:nev]), actions(), rnd.choice(normal)))
+                ep, epev = M["_entry_pts"][ri]
+                M["rows"].append("%s + %s%s%s -> %s" % (ep, epev, guard(pool), actions(), rnd.choice(normal)))
         # rows of the parent that use the pseudo states of this machine
         if shape[mi] > 0:
             P = machines[parents[mi]]
@@ -140,8 +145,8 @@ def rand_spec(profile, seed):
                     if len(regs) > 1:
                         tg = "|".join("%s.%s" % (substate, M["_explicit"][r]) for r in regs)
                         P["rows"].append("%s + %s%s -> %s" % (rnd.choice(others), rnd.choice(events[:nev]), actions(), tg))
-                for ri, ep in M["_entry_pts"].items():
-                    P["rows"].append("%s + %s%s -> %s.%s" % (rnd.choice(others), rnd.choice(events[:nev]), actions(), substate, ep))
+                for ri, (ep, epev) in M["_entry_pts"].items():
+                    P["rows"].append("%s + %s%s%s -> %s.%s" % (rnd.choice(others), epev, guard(pool), actions(), substate, ep))
                 for ri, (xp, xev) in M["_exit_pts"].items():
                     P["rows"].append("%s.%s + %s%s -> %s" % (substate, xp, xev, actions(), rnd.choice(others)))
                 # make sure the sub-machine can be entered and left
@@ -178,6 +183,18 @@ def rand_spec(profile, seed):
         if not M["kinds"]:
             M.pop("kinds")
     return {"name": name, "events": events, "machines": machines}
+
+
+def variants(spec):
+    """configurations a random spec is built for (back11 cannot compile sm-internal tables; back with favor_compile_time
+    cannot compile a machine that has both completion rows and an sm-internal table: compile-time limits, not properties)"""
+    v = ["B", "BC", "M", "MA", "MC"]
+    for M in spec["machines"]:
+        has_compl = any(" + " not in r.split("->")[0].split("[")[0].split("/")[0] for r in M["rows"])
+        if has_compl and M.get("internal"):
+            v.remove("BC")
+            break
+    return v
 
 
 def parse_name(name):
